@@ -24,9 +24,10 @@ def main():
     ap.add_argument('--tier', default='quick')
     ap.add_argument('--skip-suite', action='store_true')
     ap.add_argument('--name', default='')
+    ap.add_argument('--root', default='/tmp/seed')
     a = ap.parse_args()
     sid = a.id
-    wt = '/tmp/seed/%s' % sid
+    wt = '%s/%s' % (a.root, sid)
     out = os.path.join(wt, '_out')
     name = a.name or sid
     dest = '/verif/seeded/%s' % name
@@ -53,7 +54,7 @@ def main():
                 os.makedirs(os.path.dirname(os.path.join(wt, rel)) or wt, exist_ok=True)
                 shutil.copy(src, os.path.join(wt, rel))
     meta['demo_rel'] = demo_rel
-    stash = '/tmp/seed/%s.demo' % sid
+    stash = '%s/%s.demo' % (a.root, sid)
     shutil.rmtree(stash, ignore_errors=True)
     os.makedirs(stash)
     for rel in demo_rel:
